@@ -294,6 +294,15 @@ class NS:
             return False
         return self._st.defined.get(name, True)
 
+    def ghost(self, name, ty):
+        """explicit skolemisation of an existential in a postcondition: while the function itself is verified
+        this is the ghost local `name` (the witness); at a call site it is a fresh symbolic value"""
+        if name in self._st.locals:
+            return wrap(self._ex, self._st, self._st.locals[name])
+        if name not in self._extra:
+            self._extra[name] = self._ex.fresh_param(self._st, "wit." + name, ty)
+        return self._extra[name]
+
     def has(self, name):
         return name in self._st.locals
 
@@ -1344,6 +1353,9 @@ class Exec:
         raise Unsupported("attribute store on %r" % (base,))
 
     def check_index(self, st, lst, idx, node):
+        base = getattr(node, "value", None)
+        if isinstance(base, ast.Name) and base.id.startswith("g_"):
+            return   # ghost arrays are logical maps: no bounds
         self.oblige(st, "safe", "index", "inrange", L.conj(L.le(0, idx), L.lt(idx, lst.length)), node)
 
     # ---------------- expressions
